@@ -38,7 +38,7 @@
 (* scratch space is supported by no documentation) are enumerated and      *)
 (* executed, but classified "info": reported in evidence, never a verdict. *)
 (***************************************************************************)
-EXTENDS Expr, Containers, Json
+EXTENDS Expr, AliasingViews, Json
 
 CONSTANTS Part,     \* "scalar" | "cont"
           NSet,     \* numbers of independent variables (scalar part)
@@ -202,84 +202,13 @@ KindAssignments(g) ==
 (***************************************************************************)
 (*                            CONTAINER FAMILY                             *)
 (***************************************************************************)
-(* A parent is a dense row-major content (sequence of duals <<v, d>>); a   *)
-(* vector parent has cols = -1.  A view is                                 *)
-(*   [p, t, r0, r1, c0, c1]  matrix: Slice(r0, r1, c0, c1) of parent p,    *)
-(*                           then T() when t = 1 (0-based, half open)      *)
-(*   [p, t = 0, r0, r1, c0 = 0, c1 = -1]  vector: Slice(r0, r1)            *)
-(*   [p, t = 2, r0 = i, ...]              vector: row i of MATRIX parent p *)
-(*                                        (shares the storage of p)        *)
-(* `whole` = 1: the parent object itself (no Slice call).  Roles with the  *)
-(* same view INDEX are the same object; different indices with the same    *)
-(* window are distinct headers onto the same cells.                        *)
+(* The view algebra (Parent, View, Idx, Read, WriteBack), the contract     *)
+(* CResult and the modelled known deviations (SeqEval, MdotVSeq, VdotMSeq,  *)
+(* OuterSeq) live in AliasingViews.tla, shared with AliasingTrace.tla.      *)
 (***************************************************************************)
-Parent(rows, cols, cc) == [rows |-> rows, cols |-> cols, c |-> cc]
-View(p, t, r0, r1, c0, c1, whole) == [p |-> p, t |-> t, r0 |-> r0, r1 |-> r1, c0 |-> c0, c1 |-> c1, whole |-> whole]
-NoView == 0
-
-VRows(P, v) == IF v.t = 2 THEN P[v.p].cols
-               ELSE IF P[v.p].cols < 0 THEN v.r1 - v.r0
-               ELSE IF v.t = 1 THEN v.c1 - v.c0 ELSE v.r1 - v.r0
-VCols(P, v) == IF v.t = 2 \/ P[v.p].cols < 0 THEN -1
-               ELSE IF v.t = 1 THEN v.r1 - v.r0 ELSE v.c1 - v.c0
-VLen(P, v)  == IF VCols(P, v) < 0 THEN VRows(P, v) ELSE VRows(P, v) * VCols(P, v)
-
-\* parent cell (1-based, row major) of the k-th element (1-based, row major) of the view
-Idx(P, v, k) ==
-  IF v.t = 2 THEN v.r0 * P[v.p].cols + k
-  ELSE IF P[v.p].cols < 0 THEN v.r0 + k
-  ELSE LET vc == VCols(P, v)
-           i  == (k - 1) \div vc          \* view coordinates, 0-based
-           j  == (k - 1) % vc
-           pi == IF v.t = 1 THEN v.r0 + j ELSE v.r0 + i
-           pj == IF v.t = 1 THEN v.c0 + i ELSE v.c0 + j
-       IN pi * P[v.p].cols + pj + 1
-
-Read(P, v) == SeqOf(VLen(P, v), LAMBDA k : P[v.p].c[Idx(P, v, k)])
-CellsOf(P, v) == {<<v.p, Idx(P, v, k)>> : k \in 1..VLen(P, v)}
-
-\* write the triples res (all finite) through view v
-WriteBack(P, v, res) ==
-  [q \in 1..Len(P) |->
-     IF q # v.p THEN P[q]
-     ELSE [P[q] EXCEPT !.c = [x \in 1..Len(P[q].c) |->
-             IF \E k \in 1..Len(res) : Idx(P, v, k) = x
-             THEN LET k == CHOOSE k \in 1..Len(res) : Idx(P, v, k) = x IN <<res[k][1], res[k][2]>>
-             ELSE P[q].c[x]]]]
-
-EwOps  == {"VaddV", "VsubV", "VmulV", "VdivV", "MaddM", "MsubM", "MmulM", "MdivM"}
-EwSOps == {"VaddS", "VsubS", "VmulS", "VdivS", "MaddS", "MsubS", "MmulS", "MdivS"}
-
-CDims(op, P, r, a, b) ==
-  CASE op = "MdotM" -> <<VRows(P, r), VCols(P, r), VCols(P, a)>>
-    [] op = "MdotV" -> <<VRows(P, r), -1, VCols(P, a)>>
-    [] op = "VdotM" -> <<VRows(P, r), -1, VRows(P, b)>>
-    [] OTHER        -> <<VRows(P, r), VCols(P, r), 0>>
-
-\* the contract: simultaneous assignment
-CResult(op, P, r, a, b, s) ==
-  Result(op, Read(P, a), IF b = NoView THEN <<>> ELSE Read(P, b), s, CDims(op, P, r, a, b))
-
-(* What the library is known to do for ELEMENT-WISE operations on views    *)
-(* that overlap without being the same window (known finding, modelled so  *)
-(* that the check stays sensitive next to it): the elements are computed   *)
-(* one after the other in row-major order of the receiver, every read      *)
-(* seeing the cells already written.                                       *)
-EwOne(op, x, y, s) ==
-  LET one == Result(op, <<x>>, <<y>>, s, <<1, -1, 0>>)[1] IN <<one[1], one[2]>>
-RECURSIVE SeqEval(_, _, _, _, _, _, _)
-SeqEval(op, P, r, a, b, s, k) ==
-  IF k > VLen(P, r) THEN P
-  ELSE LET x  == P[a.p].c[Idx(P, a, k)]
-           y  == IF b = NoView THEN Z ELSE P[b.p].c[Idx(P, b, k)]
-           P2 == [P EXCEPT ![r.p].c[Idx(P, r, k)] = EwOne(op, x, y, s)]
-       IN SeqEval(op, P2, r, a, b, s, k + 1)
-
-AllFin(res) == \A k \in 1..Len(res) : res[k][3] = 0
-
 \* expected class: "correct" or "reject-or-correct" (a panic is fine, a silent wrong result is not)
 CClass(op, sparseRecv) ==
-  IF op \in {"MdotV", "VdotM"} THEN "reject-or-correct" ELSE "correct"
+  IF op \in {"MdotV", "VdotM"} \/ (op = "MdotM" /\ sparseRecv) THEN "reject-or-correct" ELSE "correct"
 
 CCase(op, grpname, P, views, ri, ai, bi, s) ==
   LET r   == views[ri]
@@ -287,9 +216,13 @@ CCase(op, grpname, P, views, ri, ai, bi, s) ==
       b   == IF bi = 0 THEN NoView ELSE views[bi]
       res == CResult(op, P, r, a, b, s)
       post == WriteBack(P, r, res)
-      dev  == IF op \in EwOps \cup EwSOps THEN SeqEval(op, P, r, a, b, s, 1) ELSE post
+      dev  == CASE op \in EwOps \cup EwSOps -> SeqEval(op, P, r, a, b, s, 1)
+                [] op = "MdotV" -> MdotVSeq(P, r, a, b)
+                [] op = "VdotM" -> VdotMSeq(P, r, a, b)
+                [] op = "Outer" -> OuterSeq(P, r, a, b, 1)
+                [] OTHER -> post
   IN [fam |-> "cont", op |-> op, grp |-> grpname, parents |-> P, views |-> views,
-      roles |-> [r |-> ri, a |-> ai, b |-> bi], s |-> s, cls |-> CClass(op, FALSE),
+      roles |-> [r |-> ri, a |-> ai, b |-> bi], s |-> s, cls |-> CClass(op, FALSE), clss |-> CClass(op, TRUE),
       exp |-> res, post |-> [q \in 1..Len(post) |-> post[q].c],
       dev |-> IF dev = post THEN <<>> ELSE [q \in 1..Len(dev) |-> dev[q].c],
       ok |-> AllFin(res)]
@@ -321,11 +254,13 @@ VecEw  == {"VaddV", "VsubV", "VmulV", "VdivV"}
 MatEw  == {"MaddM", "MsubM", "MmulM", "MdivM"}
 VecEwS == {"VaddS", "VsubS", "VmulS", "VdivS"}
 MatEwS == {"MaddS", "MsubS", "MmulS", "MdivS"}
+DivOps == {"VdivV", "MdivM", "VdivS", "MdivS"}
 ContGroups ==
      {CGroup("id", op) : op \in VecEw \cup MatEw \cup VecEwS \cup MatEwS \cup {"MdotM", "MdotV", "VdotM", "Outer"}}
 \cup {CGroup("hdr", op) : op \in VecEw \cup MatEw \cup VecEwS \cup MatEwS \cup {"MdotM"}}
-\cup {CGroup("ovl", op) : op \in VecEw \cup MatEw \cup VecEwS \cup MatEwS \cup {"MdotM", "MdotV", "VdotM"}}
-\cup {CGroup("tr", op)  : op \in MatEw \cup MatEwS \cup {"MdotM"}}
+\* (no division through partially overlapping windows: the deviation model needs exact quotients)
+\cup {CGroup("ovl", op) : op \in ((VecEw \cup MatEw \cup VecEwS \cup MatEwS) \ DivOps) \cup {"MdotM", "MdotV", "VdotM"}}
+\cup {CGroup("tr", op)  : op \in ((MatEw \cup MatEwS) \ DivOps) \cup {"MdotM"}}
 \cup {CGroup("row", op) : op \in {"Outer", "MdotV", "VdotM"}}
 
 Whole(p, P) == IF P[p].cols < 0 THEN View(p, 0, 0, P[p].rows, 0, -1, 1)
@@ -537,11 +472,12 @@ Frame ==
   IsContCase =>
     \A q \in 1..Len(c.parents) : \A x \in 1..Len(c.parents[q].c) :
        (<<q, x>> \notin CellsOf(c.parents, c.views[c.roles.r])) => c.post[q][x] = c.parents[q].c[x]
-\* the deviation model differs from the contract only where the receiver's cells are read through ANOTHER window
+\* the deviation model differs from the contract only where the receiver's cells are read through an operand
+\* (element-wise operations: through ANOTHER window)
 DevOnlyWhenOverlap ==
   IsContCase =>
     (c.dev # <<>> =>
        \E role \in {c.roles.a, c.roles.b} :
-          role # 0 /\ c.views[role] # c.views[c.roles.r]
+          role # 0 /\ (c.op \in EwOps \cup EwSOps => c.views[role] # c.views[c.roles.r])
           /\ CellsOf(c.parents, c.views[role]) \cap CellsOf(c.parents, c.views[c.roles.r]) # {})
 =============================================================================
